@@ -188,7 +188,7 @@ pub fn run_c01(tier: &str, seed: u64, replay: Option<&str>) -> (Meta, Report) {
         return (meta, run_single(case, judge_c01));
     }
     let n1 = c01_loss1_space().len();
-    let nr = if tier == "thorough" { 200_000 } else { 6_000 };
+    let nr = if tier == "thorough" { 2_000_000 } else { 6_000 };
     let mut rep = run_cases(n1, "c01-loss1", move |i| c01_case("loss1", i, seed), judge_c01);
     rep.merge(run_cases(nr, "c01-rand", move |i| c01_case("rand", i, seed), judge_c01));
     rep.add("cases:loss1", n1 as u64);
@@ -521,10 +521,10 @@ pub fn run_c02(tier: &str, seed: u64, replay: Option<&str>) -> (Meta, Report) {
         rep.merge(run_cases(m, "c02-sys2", move |i| c02_case("sys2", off + i * stride, seed), judge_c02));
         rep.add("cases:sys2", m as u64);
     }
-    let nr = if thorough { 150_000 } else { 8_000 };
+    let nr = if thorough { 800_000 } else { 8_000 };
     rep.merge(run_cases(nr, "c02-rand", move |i| c02_case("rand", i, seed), judge_c02));
     rep.add("cases:rand", nr as u64);
-    let na = if thorough { 100_000 } else { 5_000 };
+    let na = if thorough { 800_000 } else { 5_000 };
     rep.merge(run_cases(na, "c02-adaptive", move |i| c02_case("adaptive", i, seed), judge_c02));
     rep.add("cases:adaptive", na as u64);
     (meta, rep)
@@ -742,7 +742,7 @@ pub fn run_c03(tier: &str, seed: u64, replay: Option<&str>) -> (Meta, Report) {
         return (meta, run_single(case, judge_c03));
     }
     let nb = c03_blackout_space().len();
-    let (stride, nc, nr) = if thorough { (1usize, 40_000, 40_000) } else { (4usize, 2_500, 2_500) };
+    let (stride, nc, nr) = if thorough { (1usize, 400_000, 400_000) } else { (4usize, 2_500, 2_500) };
     let off = (seed % stride as u64) as usize;
     let m = (nb - off + stride - 1) / stride;
     let mut rep = run_cases(m, "c03-blackout", move |i| c03_case("blackout", off + i * stride, seed), judge_c03);
